@@ -863,7 +863,7 @@ class Food(UnitConversions):
 
         self.validate_if_list()
 
-        return Food(
+        item = Food(
             kcals=self.kcals[key],
             fat=self.fat[key],
             protein=self.protein[key],
@@ -871,6 +871,12 @@ class Food(UnitConversions):
             fat_units=self.fat_units,
             protein_units=self.protein_units,
         )
+
+        if not item.is_list_monthly():
+            # a single month is a " per month" quantity, not an " each month" list
+            item.set_units_from_list_to_element()
+
+        return item
 
     def __setitem__(self, key, value):
         """
